@@ -599,7 +599,6 @@ theorem printSingle_ne_nil (l : Loc) : printSingle l ≠ [] := by
   split
   · simp
   · intro h
-    have := parseLocsF_core
     cases l with
     | mk a b rev d =>
       cases d with
@@ -622,5 +621,101 @@ theorem parseLocs_printSingle (l : Loc) (h : Expressible l) : parseLocs (printSi
   cases hs : printSingle l with
   | nil => exact absurd hs this
   | cons c r => simp
+
+/-! ## 3. joined locations -/
+
+theorem splitC_intercalateC (c : Char) (xs : List Str) (hne : xs ≠ []) (h : ∀ x ∈ xs, c ∉ x) :
+    splitC c (intercalateC c xs) [] = xs := by
+  induction xs with
+  | nil => exact absurd rfl hne
+  | cons x xs ih =>
+    cases xs with
+    | nil =>
+      simp only [intercalateC]
+      rw [splitC_nosep c x [] (h x List.mem_cons_self)]
+      simp
+    | cons y ys =>
+      have hi := ih (by simp) (fun z hz => h z (List.mem_cons_of_mem _ hz))
+      simp only [intercalateC] at hi ⊢
+      rw [splitC_append c x _ [] (h x List.mem_cons_self)]
+      simp only [splitC, if_true, List.append_nil, List.reverse_reverse]
+      rw [hi]
+
+theorem loc_mapM_map {α β γ : Type} (g : α → Option β) (k : γ → α) (r : γ → β) (ls : List γ)
+    (h : ∀ l ∈ ls, g (k l) = some (r l)) : (ls.map k).mapM g = some (ls.map r) := by
+  induction ls with
+  | nil => simp
+  | cons l ls ih =>
+    have h1 := h l List.mem_cons_self
+    have h2 := ih (fun x hx => h x (List.mem_cons_of_mem _ hx))
+    simp [List.mapM_cons, h1, h2]
+
+theorem loc_flatten_singletons {α : Type} (ls : List α) : (ls.map (fun l => [l])).flatten = ls := by
+  induction ls with
+  | nil => rfl
+  | cons l ls ih => simp [ih]
+
+theorem printSingle_strip (l : Loc) : strip (printSingle l) = printSingle l :=
+  loc_strip_of_all _ (fun c hc => locPSChars_noSpace c (printSingle_chars l c hc))
+
+theorem printSingle_noComma (l : Loc) : ',' ∉ printSingle l := by
+  intro h
+  have := printSingle_chars l _ h
+  revert this
+  decide
+
+theorem parseLocsF_join (ls : List Loc) (hne : ls ≠ []) (h : ∀ l ∈ ls, Expressible l)
+    (f : Nat) (hf : 3 ≤ f) :
+    parseLocsF f ("join(".toList ++ intercalateC ',' (ls.map printSingle) ++ [')']) = some ls := by
+  obtain ⟨g, rfl⟩ : ∃ g, f = g + 3 := ⟨f - 3, by omega⟩
+  have e : "join(".toList ++ intercalateC ',' (ls.map printSingle) ++ [')']
+      = locJs ++ '(' :: (intercalateC ',' (ls.map printSingle) ++ [')']) := by
+    rw [loc_joinP_lit]; simp
+  rw [e, parseLocsF_join_form,
+    splitC_intercalateC ',' (ls.map printSingle) (by simpa using hne)
+      (by
+        intro x hx
+        obtain ⟨l, _, rfl⟩ := List.mem_map.mp hx
+        exact printSingle_noComma l),
+    loc_mapM_map (fun p => parseLocsF (g + 2) (strip p)) printSingle (fun l => [l]) ls
+      (by
+        intro l hl
+        show parseLocsF (g + 2) (strip (printSingle l)) = some [l]
+        rw [printSingle_strip]
+        exact parseLocsF_printSingle l (h l hl) (g + 2) (by omega))]
+  simp [loc_flatten_singletons]
+
+theorem parseLocs_printLocs (ls : List Loc) (hne : ls ≠ []) (h : ∀ l ∈ ls, Expressible l) :
+    parseLocs (printLocs ls) = some ls := by
+  match ls, hne, h with
+  | [l], _, h => exact parseLocs_printSingle l (h l List.mem_cons_self)
+  | l1 :: l2 :: rest, hne, h =>
+    show parseLocs ("join(".toList ++ intercalateC ',' ((l1 :: l2 :: rest).map printSingle) ++ [')'])
+      = some (l1 :: l2 :: rest)
+    unfold parseLocs
+    apply parseLocsF_join _ hne h
+    rw [loc_joinP_lit]
+    simp only [List.length_append, List.length_cons, List.length_nil, locJs]
+    omega
+
+/-! ## 4. non-vacuity -/
+
+example : printLocs [⟨5, 5, false, {br := true}⟩] = ">5".toList := by decide
+example : printLocs [⟨5, 9, true, {bl := true, br := true}⟩, ⟨12, 12, false, {}⟩, ⟨7, 8, false, {btw := true}⟩]
+    = "join(complement(<5..>9),12,7^8)".toList := by decide
+example : parseLocs "join(complement(<5..>9),12,7^8)".toList
+    = some [⟨5, 9, true, {bl := true, br := true}⟩, ⟨12, 12, false, {}⟩, ⟨7, 8, false, {btw := true}⟩] := by
+  decide
+example : parseLocs "-3.>4".toList = some [⟨-3, 4, false, {unk := true, br := true}⟩] := by decide
+example : parseLocs "9..5".toList = none := by decide
+example : Expressible ⟨5, 9, true, {bl := true, br := true}⟩ := by unfold Expressible; decide
+example : ¬ Expressible ⟨5, 9, true, {unk := true, btw := true}⟩ := by unfold Expressible; decide
+/-- the round trip instantiated (uses the theorem, not evaluation) -/
+example : parseLocs (printLocs [⟨5, 9, true, {bl := true, br := true}⟩, ⟨-2, -2, false, {br := true}⟩])
+    = some [⟨5, 9, true, {bl := true, br := true}⟩, ⟨-2, -2, false, {br := true}⟩] :=
+  parseLocs_printLocs _ (by simp) (by
+    intro l hl
+    simp only [List.mem_cons, List.not_mem_nil, or_false] at hl
+    rcases hl with rfl | rfl <;> (unfold Expressible; decide))
 
 end BiotiteModel.C12
